@@ -1296,7 +1296,7 @@ class StochasticTMLE:
             print('Targeting Model')
             print(log.summary())
 
-        return log.params[0]  # Returns single-step estimated Epsilon term
+        return np.asarray(log.params)[0]  # Returns single-step estimated Epsilon term
 
     @staticmethod
     def est_marginal_variance(haw, y_obs, y_pred, y_pred_targeted, psi):
